@@ -159,5 +159,22 @@ func isSameAsPrevious(ps []*Packet, p *Packet) bool {
 	l := len(ps)
 	// A duplicate carries the same payload: the same continuity counter with another payload means that 16 packets,
 	// or a multiple, have been lost
-	return l > 0 && p.Header.HasPayload && p.Header.ContinuityCounter == ps[l-1].Header.ContinuityCounter && bytes.Equal(p.Payload, ps[l-1].Payload)
+	return l > 0 && p.Header.HasPayload && p.Header.ContinuityCounter == ps[l-1].Header.ContinuityCounter && bytes.Equal(p.Payload, ps[l-1].Payload) &&
+		hasSameFlags(ps[l-1], p)
+}
+
+// hasSameFlags checks whether the header and adaptation field flags of 2 packets are the same: a duplicate repeats the
+// whole packet, but for the value of its clock references
+func hasSameFlags(a, b *Packet) bool {
+	if a.Header.PayloadUnitStartIndicator != b.Header.PayloadUnitStartIndicator || a.Header.TransportPriority != b.Header.TransportPriority ||
+		a.Header.TransportScramblingControl != b.Header.TransportScramblingControl || (a.AdaptationField == nil) != (b.AdaptationField == nil) {
+		return false
+	}
+	if fa, fb := a.AdaptationField, b.AdaptationField; fa != nil {
+		return fa.Length == fb.Length && fa.DiscontinuityIndicator == fb.DiscontinuityIndicator && fa.RandomAccessIndicator == fb.RandomAccessIndicator &&
+			fa.ElementaryStreamPriorityIndicator == fb.ElementaryStreamPriorityIndicator && fa.HasPCR == fb.HasPCR && fa.HasOPCR == fb.HasOPCR &&
+			fa.HasSplicingCountdown == fb.HasSplicingCountdown && fa.HasTransportPrivateData == fb.HasTransportPrivateData &&
+			fa.HasAdaptationExtensionField == fb.HasAdaptationExtensionField
+	}
+	return true
 }
